@@ -244,9 +244,21 @@ def build_harness(name, files_dual, files_plain, featuresets, profile='debug'):
             disp.append('        "%s" => match std::str::from_utf8(input) { Ok(s) => run_str::<defs::%s::%s>(s, partial, trace, out), Err(_) => out.push_str("BADUTF8") },' % (en, mod, en))
         else:
             disp.append('        "%s" => run_bytes::<defs::%s::%s>(input, partial, trace, out),' % (en, mod, en))
+    # pairs of token types sharing a source (for morph), only plain definitions (Extras = (), no lifetime)
+    disph = []
+    plain = [(en, mod, c) for en, (mod, c) in sorted(enums.items()) if c.accepted and 'extras' not in (c.source or '') and "<'" not in (c.source or '')]
+    for group in ([x for x in plain if x[2].utf8], [x for x in plain if not x[2].utf8]):
+        for (a, ma, ca), (b, mb, cb) in zip(group, group[1:] + group[:1]):
+            if a == b:
+                continue
+            fn = 'hist_str' if ca.utf8 else 'hist_bytes'
+            if ca.utf8:
+                disph.append('        "%s+%s" => match std::str::from_utf8(input) { Ok(s) => %s::<defs::%s::%s, defs::%s::%s>(s, partial, ops, out), Err(_) => out.push_str("BADUTF8") },' % (a, b, fn, ma, a, mb, b))
+            else:
+                disph.append('        "%s+%s" => %s::<defs::%s::%s, defs::%s::%s>(input, partial, ops, out),' % (a, b, fn, ma, a, mb, b))
     tmpl = open(os.path.join(VERIF, 'tools', 'harness', 'main.rs.tmpl')).read()
     modtxt = 'mod defs {\n' + ''.join('    pub mod %s;\n' % m for m in mods) + '}\n'
-    main = tmpl.replace('//@MODS@', modtxt).replace('//@DISPATCH@', '\n'.join(disp)).replace('//@DISPATCH_COUNT@', '\n'.join(dispc)).replace('//@DISPATCH_BUMP@', '\n'.join(dispb))
+    main = tmpl.replace('//@MODS@', modtxt).replace('//@DISPATCH@', '\n'.join(disp)).replace('//@DISPATCH_COUNT@', '\n'.join(dispc)).replace('//@DISPATCH_BUMP@', '\n'.join(dispb)).replace('//@DISPATCH_HIST@', '\n'.join(disph))
     cargo = '''[package]
 name = "verif-harness"
 version = "0.1.0"
